@@ -205,5 +205,10 @@ Clis_sameud == [a1 |-> [tok |-> "T1", addr |-> 1], a2 |-> [tok |-> "T2a", addr |
 Toks_unsec == [TZ |-> Tok(10, 31, <<2>>, 30, "Z", "P"), TK |-> Tok(20, 61, <<1>>, 30, "K", "P"), TZ2 |-> Tok(30, 91, <<1>>, 30, "Z", "P")]
 Clis_unsec == [z |-> [tok |-> "TZ", addr |-> 1], k |-> [tok |-> "TK", addr |-> 2], z2 |-> [tok |-> "TZ2", addr |-> 3]]
 UnsecureMode == FALSE
+\* a client program restarted behind the same address: a second client object with a fresh token for the same id (1 s time-outs)
+Toks_restart == [T1 |-> [Tok(10, 31, <<1>>, 30, "K", "P") EXCEPT !.timeout = 1], T1b |-> [Tok(10, 32, <<1>>, 30, "K", "P") EXCEPT !.timeout = 1],
+                 T2 |-> Tok(20, 61, <<1>>, 30, "K", "P")]
+Clis_restart == [c1 |-> [tok |-> "T1", addr |-> 1], c1b |-> [tok |-> "T1b", addr |-> 1], c2 |-> [tok |-> "T2", addr |-> 2]]
+P_RESTART == <<"C05", "C10", "C17", "C19", "C04", "C13", "C18">>
 P_HS == <<"C05", "C10", "C17", "C19", "C04", "C13">>
 =============================================================================
